@@ -3,10 +3,10 @@ Per array program: value = list reference (C05 obligation), witness satisfies (C
 paths incl. out-of-range under ignore_errors (C06), result unique (C02), out-of-range index raises and is unprovable (C03)."""
 from . import cat_c15 as CAT15
 from . import common as C
-from . import c01, c02, c03, c05, c06
+from . import c01, c02, c03, c05, c06, c07
 
 PID = "C15"
-MODS = dict(value=c05, witness=c01, trace=c06, unique=c02, oob=c03)
+MODS = dict(value=c05, witness=c01, trace=c06, unique=c02, oob=c03, guard=c07)
 
 
 def jobs(tier):
@@ -22,6 +22,10 @@ def jobs(tier):
         js.append(dict(base, name="%s/value" % e.name, analysis="value", cfg=dict(cfg)))
         js.append(dict(base, name="%s/witness" % e.name, analysis="witness", cfg=dict(cfg)))
         js.append(dict(base, name="%s/unique" % e.name, analysis="unique", cfg=dict(cfg)))
+        if e.name in ("read_s2", "write_s2", "read2d_s", "write2d_s", "read_c3"):
+            # under a secret guard: any index value (also far out of range) is inert when the guard is false; a true guard is
+            # transparent
+            js.append(dict(base, name="%s/guard" % e.name, analysis="guard", cfg=dict(cfg, guard="sym")))
         c1 = dict(cfg, want_ref=False)
         js.append(dict(base, name="%s/trace" % e.name, analysis="trace", cfg=c1,
                        cfgs=[c1, dict(c1, ignore=True)]))
